@@ -139,9 +139,9 @@ def add_oracles(entries):
     for e in entries:
         rel = "none"
         tag = e["subject"].partition(":")[0]
-        if tag in ("method", "func") and e["kind"] in ("array", "inplace"):
+        if tag in ("method", "func", "scalar") and e["kind"] in ("array", "inplace"):
             verdicts = []
-            for (a, b) in ((1, 1), (2, 5), (3, 2), (4, 7), (5, 3)):
+            for (a, b) in ((1, 1), (2, 5), (3, 2), (4, 7), (5, 3), (6, 11), (7, 4), (9, 13), (11, 6), (13, 17), (0, 0), (16, 22)):
                 try:
                     out, self_elems, arg_elems = evaluate(e, N + 2, a, b)
                     got = out["result"] if e["kind"] == "array" else out["self_after"]
@@ -157,7 +157,11 @@ def add_oracles(entries):
                     verdicts.append("approx")
                 else:
                     verdicts.append("none")
-            if all(v == "exact" for v in verdicts):
+            f32 = any(("Array" in k and (k.endswith(("fArray", "FloatArray")) or k.endswith("cArray"))) for k in e["args"] + [e["subject"]])
+            numeric = tag == "func" or (tag == "method" and ARR.get(e["subject"].partition(":")[2], {}).get("base") == "float")
+            if all(v == "exact" for v in verdicts) and f32 and numeric:
+                rel = "approx"   # the scalar form computes in double where the array computes in float
+            elif all(v == "exact" for v in verdicts):
                 rel = "exact"
             elif all(v in ("exact", "approx") for v in verdicts):
                 rel = "approx"
